@@ -668,6 +668,16 @@ def rec_shapes():
   S['through_functor'] = ([D('T', x, y, body=(E(x, y),)), D('T', x, z, body=(E(x, y), Lit('T', y, z))), R('E2', y, x, body=(E(x, y),)), lang.Functor('M', 'T', (('E', 'E2'),))], ['T', 'M'], 'set', 'lin')
   S['consumer_of_recursive'] = ([D('T', x, y, body=(E(x, y),)), D('T', x, z, body=(E(x, y), Lit('T', y, z))), R('Cnt', x, Aggr('Count', y), body=(Lit('T', x, y),), distinct=True),
                                  R('Neg', x, body=(E(x, y), Not(Lit('T', y, x))))], ['Cnt', 'Neg'], 'agg', 'lin')
+  S['tc_left_bag'] = ([R('T', x, y, body=(E(x, y),)), R('T', x, z, body=(Lit('T', x, y), E(y, z)))], ['T'], 'bag', 'lin')
+  S['same_generation'] = ([D('SG', x, y, body=(E(z, x), E(z, y))), D('SG', x, y, body=(E(V('a'), x), Lit('SG', V('a'), V('b')), E(V('b'), y)))], ['SG'], 'set', 'lin')
+  S['with_negated_base'] = ([R('Blk', x, body=(E(x, x),)), D('T', x, y, body=(E(x, y), Not(Lit('Blk', x)))), D('T', x, z, body=(Lit('T', x, y), E(y, z), Not(Lit('Blk', y))))], ['T'], 'agg', 'lin')
+  S['bounded_distance'] = ([D('Nd', x, N(0), body=(E(x, y),)), D('Nd', x, Bin('+', d_, N(1)), body=(Lit('Nd', y, d_), E(x, y), Cmp('<', d_, N(3))))], ['Nd'], 'set', 'lin')
+  S['depth_max'] = ([R('Dp', x, value=Aggr('Max', N(0)), body=(E(x, y),)), R('Dp', y, value=Aggr('Max', Bin('+', d_, N(1))), body=(Lit('Dp', x, logica_value=d_), E(x, y)))], ['Dp'], 'agg', 'lin')
+  S['ring3_flat'] = ([D('P', x, body=(E(x, x),)), D('P', y, body=(Lit('R_', x), E(x, y))), D('P', y, body=(Lit('P', x), E(x, y), Cmp('<', x, y))), D('Q', y, body=(Lit('P', x), E(x, y))), D('Q', x, body=(Lit('Q', x), E(x, x))),
+                      D('R_', y, body=(Lit('Q', x), E(x, y))), D('R_', y, body=(Lit('R_', x), E(y, x)))], ['P', 'Q', 'R_'], 'set', 'heavy')
+  S['functor_of_mutual'] = ([D('Ev', N(1)), D('Od', y, body=(Lit('Ev', x), E(x, y))), D('Ev', y, body=(Lit('Od', x), E(x, y))), R('E2', y, x, body=(E(x, y),)), lang.Functor('Ev2', 'Ev', (('E', 'E2'),))], ['Ev', 'Ev2'], 'set', 'lin')
+  S['union_of_two_recursions'] = ([D('T', x, y, body=(E(x, y),)), D('T', x, z, body=(E(x, y), Lit('T', y, z))), D('U', x, y, body=(E(y, x),)), D('U', x, z, body=(Lit('U', x, y), E(z, y))), R('Both', x, y, body=(Lit('T', x, y), Lit('U', y, x)))],
+                                  ['Both', 'U'], 'set', 'lin')
   S['two_components'] = ([D('T', x, y, body=(E(x, y),)), D('T', x, z, body=(E(x, y), Lit('T', y, z))), D('W', x, body=(Lit('T', x, x),)), D('W', y, body=(Lit('W', x), Lit('T', x, y)))], ['T', 'W'], 'set', 'lin')
   return S
 
@@ -702,7 +712,7 @@ def c03_cases(thorough):
     rec_preds = sorted({r.pred for r in rules if isinstance(r, Rule)})
     for depth in depths:
       d = 8 if depth is None else depth
-      if kind == 'bag' and name == 'tc_bag' and d > 3: continue     # path counts explode on cyclic graphs
+      if kind == 'bag' and name in ('tc_bag', 'tc_left_bag') and d > 3: continue     # path counts explode on cyclic graphs
       anns = [None]
       if depth is not None:
         ev = refsem.Evaluator([r for r in rules if isinstance(r, Rule)], {'E': (['col0', 'col1'], [])})
@@ -718,7 +728,7 @@ def c03_cases(thorough):
           for p in ann:
             stmts.append(Ann('@Recursive(%s, %d);' % (p, depth)))
             for q in ev.component(p): depths_map[q] = depth
-        graphs = list(G3) if kind != 'bag' or name != 'tc_bag' else [g for g in G3 if all(a < b for a, b in g)]
+        graphs = list(G3) if kind != 'bag' or name not in ('tc_bag', 'tc_left_bag') else [g for g in G3 if all(a < b for a, b in g)]
         graphs += chain_graphs(d)
         if name in ('counter_bag', 'counter_set', 'counter_two', 'flat_bag'): graphs = [[]]
         c = Case('REC/' + name, Program(stmts), preds, schema='E', dbs=[{'E': g} for g in graphs], depths=depths_map, info=dict(kind=kind, depth=d, annotated=ann, shape=name))
